@@ -551,11 +551,11 @@ Lemma fold_left_map {A B C} (g : C -> B -> C) (q : A -> B) l : forall m,
   fold_left g (map q l) m = fold_left (fun m v => g m (q v)) l m.
 Proof. induction l as [|a l IH]; intros m; [reflexivity|]. cbn [map fold_left]. apply IH. Qed.
 
-Lemma add_headers_is_pairs prefix src :
-  add_headers prefix src [] =
-  pairs_md canonical_key (flat_map (fun h : header => map (fun v => (prefix ++ fst h, v)) (snd h)) src).
+Lemma add_with_is_pairs keyf src :
+  add_with keyf src [] =
+  pairs_md keyf (flat_map (fun h : header => map (fun v => (fst h, v)) (snd h)) src).
 Proof.
-  unfold add_headers, pairs_md. rewrite fold_left_flat_map.
+  unfold add_with, pairs_md. rewrite fold_left_flat_map.
   generalize (@nil (bytes * list bytes)). induction src as [|h src IH]; intros m; [reflexivity|].
   cbn [fold_left]. rewrite fold_left_map. cbn [fst snd]. apply IH.
 Qed.
@@ -585,18 +585,83 @@ Qed.
 Lemma canonical_key_case s : lower (canonical_key s) = lower s.
 Proof. unfold canonical_key. destruct (forallb is_token_char s); [apply lower_canon_go|reflexivity]. Qed.
 
-Lemma http_headers_proof prefix hs :
-  let out := convert_to_proto_header (add_headers prefix hs []) in
-  NoDup (map fst out) /\
-  (forall k, md_get out k = some_nonempty (values_under (fun n => canonical_key (prefix ++ n)) k hs)) /\
-  (forall n, lower (canonical_key (prefix ++ n)) = lower prefix ++ lower n).
+Lemma upper_lower_byte c : upper_byte (lower_byte c) = upper_byte c.
 Proof.
-  cbv zeta. unfold convert_to_proto_header. rewrite add_headers_is_pairs. split; [apply pairs_md_nodup|]. split.
-  - intros k. rewrite pairs_md_get.
-    rewrite (pairs_of_headers canonical_key (fun h => prefix ++ fst h) (fun _ v => v)).
-    unfold values_under. f_equal. apply flat_map_ext. intros h.
-    destruct (bytes_eqb (canonical_key (prefix ++ fst h)) k); [apply map_id|reflexivity].
-  - intros n. rewrite canonical_key_case. unfold lower. apply map_app.
+  unfold lower_byte, upper_byte.
+  destruct (N.leb_spec 65 c), (N.leb_spec c 90); cbn [andb];
+    repeat match goal with |- context [N.leb ?a ?b] => destruct (N.leb_spec a b) end; cbn [andb]; lia.
+Qed.
+
+Lemma dash_lower_byte c : (lower_byte c =? 45) = (c =? 45).
+Proof.
+  unfold lower_byte. destruct (N.leb_spec 65 c), (N.leb_spec c 90); cbn [andb]; try reflexivity.
+  destruct (N.eqb_spec (c + 32) 45), (N.eqb_spec c 45); try reflexivity; lia.
+Qed.
+
+Lemma token_lower_byte c : is_token_char (lower_byte c) = is_token_char c.
+Proof.
+  unfold lower_byte. destruct ((65 <=? c) && (c <=? 90)) eqn:E; [|reflexivity].
+  unfold is_token_char. rewrite E. apply andb_true_iff in E. destruct E as (E1 & E2).
+  apply N.leb_le in E1, E2.
+  assert (B : (97 <=? c + 32) && (c + 32 <=? 122) = true).
+  { apply andb_true_iff. split; apply N.leb_le; lia. }
+  rewrite B, !orb_true_r. reflexivity.
+Qed.
+
+Lemma canon_go_lower s : forall up, canon_go up (lower s) = canon_go up s.
+Proof.
+  induction s as [|c s IH]; intros up; [reflexivity|].
+  cbn [lower map canon_go]. fold (lower s). rewrite IH, dash_lower_byte.
+  destruct up; [rewrite upper_lower_byte|rewrite lower_lower_byte]; reflexivity.
+Qed.
+
+Lemma tokens_lower s : forallb is_token_char (lower s) = forallb is_token_char s.
+Proof.
+  induction s as [|c s IH]; [reflexivity|].
+  cbn [lower map forallb]. fold (lower s). rewrite IH, token_lower_byte. reflexivity.
+Qed.
+
+(* the canonical form of a well-formed name depends on the name up to letter case only *)
+Lemma canonical_key_lower n n' :
+  lower n = lower n' -> forallb is_token_char n = true -> canonical_key n = canonical_key n'.
+Proof.
+  intros E T. unfold canonical_key. rewrite T.
+  assert (T' : forallb is_token_char n' = true) by (rewrite <- tokens_lower, <- E, tokens_lower; exact T).
+  rewrite T', <- (canon_go_lower n), <- (canon_go_lower n'), E. reflexivity.
+Qed.
+
+Lemma add_with_get keyf hs :
+  NoDup (map fst (convert_to_proto_header (add_with keyf hs []))) /\
+  (forall k, md_get (convert_to_proto_header (add_with keyf hs [])) k = some_nonempty (values_under keyf k hs)).
+Proof.
+  unfold convert_to_proto_header. rewrite add_with_is_pairs. split; [apply pairs_md_nodup|].
+  intros k. rewrite pairs_md_get.
+  rewrite (pairs_of_headers keyf (fun h => fst h) (fun _ v => v)).
+  unfold values_under. f_equal. apply flat_map_ext. intros h.
+  destruct (bytes_eqb (keyf (fst h)) k); [apply map_id|reflexivity].
+Qed.
+
+Lemma trailer_key_case n : lower (trailer_key n) = lower trailer_prefix ++ lower n.
+Proof.
+  unfold trailer_key. rewrite canonical_key_case. unfold lower at 1. rewrite map_app.
+  fold (lower trailer_prefix). fold (lower (canonical_key n)). rewrite canonical_key_case. reflexivity.
+Qed.
+
+Lemma http_headers_proof hs :
+  (NoDup (map fst (convert_to_proto_header (add_headers hs []))) /\
+   (forall k, md_get (convert_to_proto_header (add_headers hs [])) k = some_nonempty (values_under canonical_key k hs)) /\
+   (forall n, lower (canonical_key n) = lower n)) /\
+  (NoDup (map fst (convert_to_proto_header (add_trailers hs []))) /\
+   (forall k, md_get (convert_to_proto_header (add_trailers hs [])) k = some_nonempty (values_under trailer_key k hs)) /\
+   (forall n, lower (trailer_key n) = lower trailer_prefix ++ lower n) /\
+   (* names that differ in letter case only share one trailer key *)
+   (forall n n', lower n = lower n' -> forallb is_token_char n = true -> trailer_key n = trailer_key n')).
+Proof.
+  split.
+  - destruct (add_with_get canonical_key hs) as (ND & G). split; [exact ND|]. split; [exact G|apply canonical_key_case].
+  - destruct (add_with_get trailer_key hs) as (ND & G). split; [exact ND|]. split; [exact G|].
+    split; [apply trailer_key_case|]. intros n n' E T. unfold trailer_key. f_equal. f_equal.
+    apply canonical_key_lower; assumption.
 Qed.
 
 (* ====================================================================== *)
